@@ -40,10 +40,14 @@ func (m *Model) PullPressedState(ctx context.Context, options ...resource.ReadOp
 		defer close(tx)
 		for change := range rx {
 			value := change.Value.(*traits.PressedState)
-			tx <- PullPressedStateChange{
+			select {
+			case <-ctx.Done():
+				return
+			case tx <- PullPressedStateChange{
 				Value:         value,
 				ChangeTime:    change.ChangeTime,
 				LastSeedValue: change.LastSeedValue,
+			}:
 			}
 		}
 	}()
